@@ -227,21 +227,35 @@ def handler_type(ctx):
 def decode_type(ctx):
     """decode.<enc> returns str for str, bytes and any other object"""
     db = ctx.db
-    fn = db.func("filters.Decode.__getattr__.decode")
+    ga = db.func("filters.Decode.__getattr__")
+    keyp = pn(ga, 1)
+    # filters.decode is one module-level instance shared by every template and thread: looking an encoding up must not write to it
+    writes = [n for n in ast.walk(ga) if (isinstance(n, (ast.Assign, ast.AugAssign)) and any((dotted(t) or "").startswith("self.") for t in (n.targets if isinstance(n, ast.Assign) else [n.target])))
+              or (isinstance(n, ast.Call) and dotted(n.func) in ("setattr", "self.__dict__.__setitem__", "self.__dict__.update"))]
+    ctx.check(not writes, "no-shared-state", db.where(writes[0]) if writes else db.where(ga), "Decode.__getattr__ stores the requested encoding on the shared Decode instance (`%s`): two decode.<enc> filters evaluated before either is called (or used from two threads) decode with the encoding asked for last" % (src(writes[0]) if writes else ""), "the encoding is captured per look-up, nothing is written to the shared instance")
+    rets_ga = [r for r in walk_func(ga) if isinstance(r, ast.Return)]
+    fn = None
+    if len(rets_ga) == 1 and isinstance(rets_ga[0].value, ast.Name):
+        cands = [f for f in ga.body if isinstance(f, ast.FunctionDef) and f.name == rets_ga[0].value.id]
+        fn = cands[0] if cands else None
+    if fn is None:
+        ctx.violation("closure", db.where(ga), "Decode.__getattr__ does not return a function defined for the requested encoding (returns %s): the decoding rules cannot be followed" % [src(r.value) for r in rets_ga])
+        return
+    x = pn(fn, 0)
     rets = [r for r in walk_func(fn) if isinstance(r, ast.Return)]
     ctx.require(len(rets) >= 3, "decode has %d returns" % len(rets))
     kinds = []
     for r in rets:
         t = src(r.value)
-        if t == "x":
+        if t == x:
             ifn = getattr(r, "_parent", None)
-            ok = isinstance(ifn, ast.If) and "isinstance(x, str)" in src(ifn.test) and r in ifn.body
+            ok = isinstance(ifn, ast.If) and P.matches(ifn.test, "isinstance(%s, str)" % x) and r in ifn.body
             kinds.append("str-passthrough")
             ctx.check(ok, "branch:str", db.where(r), "x returned unchanged outside the isinstance(x, str) branch", "str returned as is")
-        elif t.startswith("decode(str(x"):
+        elif P.matches(r.value, "%s(str(%s))" % (fn.name, x)):
             kinds.append("other")
             ctx.ok("branch:other", db.where(r), "other objects: decode(str(x))")
-        elif t.startswith("str(x, encoding=key") or t.startswith("x.decode(key"):
+        elif P.matches(r.value, "str(%s, encoding=%s)" % (x, keyp)) or P.matches(r.value, "str(%s, %s)" % (x, keyp)) or P.matches(r.value, "%s.decode(%s)" % (x, keyp)):
             kinds.append("bytes")
             ctx.ok("branch:bytes", db.where(r), "bytes decoded with the attribute name as encoding")
         else:
